@@ -49,7 +49,7 @@ func (b *c09Backend) ServeHTTP(w http.ResponseWriter, r *http.Request) {
 
 func c09Cfg() (*pipeCfg, bool) {
 	cfg := &pipeCfg{maxMsg: 64, kind: fkBidi} // above every length the symbolic streams can state (limit behaviour: C10)
-	cfg.client = verifChoose("client", 2) // gRPC, gRPC-Web (Connect streaming clients: see hC09ReqConnect)
+	cfg.client = verifChoose("client", 2)     // gRPC, gRPC-Web (Connect streaming clients: see hC09ReqConnect)
 	cfg.svcProtos = []Protocol{pipeProtocols[verifChoose("target", 3)]}
 	cfg.clientCodec = CodecProto
 	if verifChoose("diffCodec", 2) == 1 {
